@@ -43,6 +43,11 @@ def plan(tier):
                             'from ANY state Inv(C, o=%d) of the %s back end (arbitrary %d-round key schedule, arbitrary counter C incl. all carries and wrap-around, arbitrary data): encrypt(%d bytes%s) returns 1, '
                             'output = input xor (rest of buffered batch, then E(C), E(C+1), ...), and Inv holds again for the advanced counter/offset' % (o, name, lowr, n, ', out == in' if inplace else ''),
                             defs=dict(base, OB_STEP=1, O=o, N=n, NR=lowr, INPLACE=inplace), ll=ll, timeout=900, fsarray=fs, sanitize=True))
+        # one request of more than 256 blocks (loop counters of the back end must not be narrower than the request); thorough tier
+        if tier == 'thorough' and not (c == 3 and v):
+            nbig = 256 * blk + blk + 1
+            qs.append(Q('big:%s:o%d:n%d' % (name, B, nbig), 'c05.c', 'encrypt(%d bytes in one call) on the %s back end from Inv(C, nothing buffered), 1-round arbitrary schedule' % (nbig, name),
+                        defs=dict(base, OB_STEP=1, O=B, N=nbig, NR=1, INPLACE=0), ll=ll, timeout=7200, fsarray=9000, unwind=9000, sanitize=True, mem_est=6))
         # in-place pieces longer than half a batch (the xor helpers may take wide or overlapping strides there)
         if v:
             for (o, n) in ((B, B // 2 + blk + 4), (1, B - blk - 3), (blk + 5, B // 2 + 9)):
